@@ -168,6 +168,9 @@ class Unit:
                 notes = Notes()
                 txt = apply_rules(sp.text, ['R8', 'R8b'], notes)
                 txt = self._apply_substs(txt, s, notes)
+                if 'noderive' in s.args:
+                    txt = re.sub(r'#\[derive\([^)]*\)\]\s*', '', txt)
+                    notes.add('R8', 'all derives dropped (not used by the functions under contract)')
                 # R8c: a derived Clone (no Verus spec when fields are not Copy) becomes an impl with the ASSUMED
                 # contract `clone() == *self`
                 dm = re.search(r'#\[derive\(([^)]*)\)\]', txt)
